@@ -6,7 +6,7 @@ import ast
 from typing import Dict, List, Optional, Tuple
 
 from .. import materialize, rx
-from ..core import Ctx, filter_semantics, assigned_names, dotted, names_in, norm, stmts_local, walk_local
+from ..core import Ctx, filter_semantics, presence_test, assigned_names, dotted, names_in, norm, stmts_local, walk_local
 from ..paths import enumerate_paths, guards_of
 from ..typed import Typed, eyecite_class
 
@@ -218,35 +218,79 @@ def rule_guess_edition(ctx: Ctx, rule="R-C18-4"):
     ok_store = ok_narrow = ok_complete = True
     n_store = n_narrow = 0
     why = ""
+
+    def len_fact(c: ast.AST, outcome: bool):
+        """(name, 'len>1' | 'len==1' | 'truthy', holds) for a condition about the size of a list variable"""
+        pt = presence_test(c, outcome)
+        if pt and pt[0].isidentifier() and not (isinstance(c, ast.Compare) and isinstance(c.ops[0], (ast.Is, ast.IsNot))):
+            return pt[0], "truthy", pt[1]
+        if isinstance(c, ast.Compare) and len(c.ops) == 1:
+            l, r, op = c.left, c.comparators[0], c.ops[0]
+            flip = {ast.Lt: ast.Gt, ast.Gt: ast.Lt, ast.LtE: ast.GtE, ast.GtE: ast.LtE, ast.Eq: ast.Eq, ast.NotEq: ast.NotEq}
+            if isinstance(l, ast.Constant) and type(op) in flip:
+                l, r, op = r, l, flip[type(op)]()
+            if isinstance(l, ast.Call) and dotted(l.func) == "len" and len(l.args) == 1 and isinstance(l.args[0], ast.Name) and isinstance(r, ast.Constant) \
+                    and isinstance(r.value, int):
+                nm, k = l.args[0].id, r.value
+                if (isinstance(op, ast.Gt) and k == 1) or (isinstance(op, ast.GtE) and k == 2):
+                    return nm, "len>1", outcome
+                if (isinstance(op, ast.LtE) and k == 1) or (isinstance(op, ast.Lt) and k == 2):
+                    return nm, "len>1", not outcome
+                if isinstance(op, ast.Eq) and k == 1:
+                    return nm, "len==1", outcome
+                if isinstance(op, ast.NotEq) and k == 1:
+                    return nm, "len==1", not outcome
+        return None
+
     for p in paths:
+        val = {E: 0}          # variable -> value id; 0 = exact-or-variation candidates, 1 = year-filtered
+        facts = {}            # (value id, kind) -> bool
+        year_known = None
+        cur = 0               # the value the guess must be taken from (the most narrowed one)
         conds = []
         stored = False
         for ev in p.events:
             if ev[0] == "cond":
                 conds.append((norm(ev[1]), ev[2]))
+                if norm(ev[1]) == f"{S}.year":
+                    year_known = ev[2]
+                lf = len_fact(ev[1], ev[2])
+                if lf and lf[0] in val:
+                    facts[(val[lf[0]], lf[1])] = lf[2]
             elif ev[0] == "stmt":
                 s = ev[1]
-                if isinstance(s, ast.Assign) and E in assigned_names(s) and s is not init:
-                    n_narrow += 1
-                    v = s.value
-                    good = (isinstance(v, ast.ListComp) and len(v.generators) == 1 and norm(v.generators[0].iter) == E
-                            and norm(v.elt) == norm(v.generators[0].target) and len(v.generators[0].ifs) == 1
-                            and norm(v.generators[0].ifs[0]) == f"{norm(v.elt)}.includes_year({S}.year)")
-                    if not good:
-                        ok_narrow, why = False, f"candidates rebound by `{norm(s)[:70]}` (only a filter by includes_year(self.year) may narrow them)"
-                    if (f"len({E}) > 1", True) not in conds or (f"{S}.year", True) not in conds:
-                        ok_narrow, why = False, f"year filter applied without `len({E}) > 1 and {S}.year` (conditions {conds}): a single candidate must be accepted whatever the year"
-                    conds = [c for c in conds if E not in c[0]]  # facts about the old list are stale
+                if isinstance(s, ast.Assign) and len(s.targets) == 1 and isinstance(s.targets[0], ast.Name) and s is not init:
+                    t, v = s.targets[0].id, s.value
+                    if isinstance(v, ast.Name) and v.id in val:
+                        val[t] = val[v.id]
+                    elif isinstance(v, ast.ListComp) and len(v.generators) == 1 and isinstance(v.generators[0].iter, ast.Name) and v.generators[0].iter.id in val:
+                        n_narrow += 1
+                        src = val[v.generators[0].iter.id]
+                        good = (norm(v.elt) == norm(v.generators[0].target) and len(v.generators[0].ifs) == 1
+                                and norm(v.generators[0].ifs[0]) == f"{norm(v.elt)}.includes_year({S}.year)")
+                        if not good:
+                            ok_narrow, why = False, f"candidates narrowed by `{norm(s)[:70]}` (only a filter by includes_year(self.year) may narrow them)"
+                        if src != 0 or facts.get((0, "len>1")) is not True or year_known is not True:
+                            ok_narrow, why = False, (f"year filter applied without `len(candidates) > 1 and {S}.year` (conditions {conds}): a single candidate "
+                                                     "must be accepted whatever the year")
+                        val[t] = 1
+                        cur = 1
+                    elif t in val:
+                        if not (isinstance(v, ast.Constant) and v.value is None):
+                            ok_narrow, why = False, f"candidates rebound by `{norm(s)[:70]}` (only a filter by includes_year(self.year) may narrow them)"
+                        val.pop(t, None)
                 for n in ast.walk(s):
                     if isinstance(n, ast.Attribute) and n.attr == "edition_guess" and isinstance(n.ctx, ast.Store):
                         stored = True
                         n_store += 1
-                        val = s.value if isinstance(s, ast.Assign) else None
-                        is_one = (f"len({E}) == 1", True) in conds or (f"len({E}) != 1", False) in conds or (f"1 == len({E})", True) in conds
-                        if not (val is not None and norm(val) in (f"{E}[0]", f"{E}[-1]") and is_one):
-                            ok_store, why = False, f"`{norm(s)[:60]}` is not `{E}[0]` under `len({E}) == 1` (conditions {conds})"
+                        v = s.value if isinstance(s, ast.Assign) else None
+                        base = v.value if isinstance(v, ast.Subscript) and isinstance(v.value, ast.Name) else None
+                        idx_ok = isinstance(v, ast.Subscript) and norm(v.slice) in ("0", "-1")
+                        if not (base is not None and idx_ok and base.id in val and val[base.id] == cur and facts.get((cur, "len==1")) is True):
+                            ok_store, why = False, f"`{norm(s)[:60]}` is not `<candidates>[0]` under `len(<candidates>) == 1` (conditions {conds})"
         if not stored and p.exit in ("fall", "return"):
-            declined = (f"len({E}) == 1", False) in conds or (f"len({E}) != 1", True) in conds or (f"not {E}", True) in conds or (E, False) in conds
+            declined = facts.get((cur, "len==1")) is False or facts.get((cur, "truthy")) is False or facts.get((0, "truthy")) is False \
+                or (cur == 0 and facts.get((0, "len>1")) is True)
             if not declined:
                 ok_complete, why = False, f"a path leaves without a guess although it has not established that the candidates are not exactly one (conditions {conds})"
     ctx.ob(rule, f"{q}/guess-is-the-single-candidate", ok_store and n_store > 0,
